@@ -3,10 +3,11 @@
    C02).  Nothing is modelled here; the file only ties theorems of those layers together.
 
    Part A  frame_is_carrier          what ais_to_nmea_0183 emits is a member of the carrier family of its payload
-   Part B  accepted_by_decoder       C09's clause "the sentences taken together are accepted by the decoder"
-   Part C  to_bitarray_bound         every message serialises to at most 1064 bits (from the regenerated tables)
-           c02_end_to_end            C02_partial through encode_msg / encode_dict -> decode_api
-   Part D  c01_through_carrier       C01 for decode( *sentences ) on EVERY carrier of the armored bits
+   Part B  accepted_by_decoder       C09's clause "the sentences taken together are accepted by the decoder";
+           encode_msg_accepted / encode_dict_accepted, the same for the two entry points
+   (Proofs/EndToEndC02.v: c02_end_to_end -- C02_partial through encode_msg / encode_dict -> decode_api, with the bound on
+    the payload length proved from the regenerated tables;  Proofs/EndToEndC01.v: c01_through_carrier -- C01 for
+    decode( *sentences ) on EVERY carrier of the armored bits.)
 
    Frame.v's strings are lists of character codes (list Z), CarrierSpec's byte strings are lists of byte values
    (list Z): for the ASCII text the encoder emits str.encode() is the identity on codes, so the "conversion" between
